@@ -93,8 +93,8 @@ func c18Dur(class string, tick time.Duration) time.Duration {
 }
 
 const (
-	c18EdgeBefore = 75 * time.Millisecond // "edge" work ends this long before the wait is over
-	c18EdgeJudge  = 25 * time.Millisecond // a cut the client saw later than (wait - this) gives no verdict
+	c18EdgeBefore = 75 * time.Millisecond  // "edge" work ends this long before the wait is over
+	c18EdgeJudge  = 25 * time.Millisecond  // a cut the client saw later than (wait - this) gives no verdict
 	c18TickEdge   = 500 * time.Millisecond // scenarios with edge work run on a slower clock: W = 2 s
 )
 
@@ -103,12 +103,12 @@ const (
 // the work protocol of the TCP upstreams: the client sends "<id> <dur-ns>\n"; the upstream
 // answers "start\n", works for the duration, answers "done-<id>\n" and closes.
 type c18Up struct {
-	mu    sync.Mutex
-	ended map[string]time.Time // id -> when the server side of the item ended (finished or failed)
-	stop  chan struct{}        // closed at the end of a scenario: open work is abandoned
-	muted map[string]chan struct{} // id -> closed when the upstream has seen the request and the client's EOF
-	edgeAt  time.Time     // when "edge" work ends
-	edgeSet chan struct{} // closed once edgeAt is known
+	mu      sync.Mutex
+	ended   map[string]time.Time     // id -> when the server side of the item ended (finished or failed)
+	stop    chan struct{}            // closed at the end of a scenario: open work is abandoned
+	muted   map[string]chan struct{} // id -> closed when the upstream has seen the request and the client's EOF
+	edgeAt  time.Time                // when "edge" work ends
+	edgeSet chan struct{}            // closed once edgeAt is known
 }
 
 func (u *c18Up) setEdge(t time.Time) {
